@@ -88,6 +88,7 @@ package server
 //@   props C17 C06
 //@   ensures [legend] result0 >= 0 && result0 <= 12
 //@   ensures [C17:line_structure_unmapped] t == 1 || t == 2 || t == 0 ==> !result1
+//@   ensures [C17:code_commodity] result1 ==> ((result0 == 7) <==> (t == 5)) && ((result0 == 1) <==> (t == 9))
 
 //@ specdef prevLine(ts []semanticToken, i int) int := ite(i > 0, ts[i - 1].line, 0)
 //@ specdef prevCol(ts []semanticToken, i int) int := ite(i > 0, ts[i - 1].col, 0)
@@ -158,16 +159,27 @@ package server
 //@   effects none
 //@   loop 1 invariant 0 <= iterpos && iterpos <= len(name)
 
+// The length of a semantic token: a code and a commodity cover their whole extent in the line (delimiters included: the
+// lexer value drops them), a comment its text plus the semicolon, every other token its value.
+//@ func semanticTokenLength
+//@   props C17 C06
+//@   requires tok.Pos.Column >= 1 && tok.End.Column <= 4294967295 && len(tok.Value) < 4294967294
+//@   ensures [C17:delimited_extent] (tok.Type == 5 || tok.Type == 9) && tok.End.Line == tok.Pos.Line && tok.End.Column > tok.Pos.Column ==> result == tok.End.Column - tok.Pos.Column
+//@   ensures [C17:comment_with_semicolon] tok.Type == 10 ==> result == u16(tok.Value, len(tok.Value)) + 1
+//@   ensures [C17:value_length] tok.Type != 5 && tok.Type != 9 && tok.Type != 10 ==> result == u16(tok.Value, len(tok.Value))
+
 //@ func extractTagTokensFromComment
 //@   props C06 C17
 //@   requires tok.Pos.Line >= 1 && tok.Pos.Column >= 1 && tok.Pos.Line <= 4294967295 && tok.Pos.Column <= 4294967295 && len(tok.Value) < 4294967295
 //@   requires [C17:fits] tok.Pos.Column + len(tok.Value) <= 4294967295
 //@   ensures [legend] forall i int :: 0 <= i && i < len(result) ==> result[i].tokenType <= 12
 //@   ensures [fresh] fresh(result) || len(result) == 0
+//@   ensures [C17:tag_kinds] forall i int :: {result[i]} 0 <= i && i < len(result) ==> result[i].tokenType == 5 || result[i].tokenType == 12
 //@   ensures [C17:tag_tokens_in_order] forall i int, j int :: {result[i]; result[j]} 0 <= i && i < j && j < len(result) ==> result[i].col + result[i].length <= result[j].col && result[i].col <= result[j].col
 //@   ensures [C17:tag_tokens_inside_comment] forall i int :: {result[i]} 0 <= i && i < len(result) ==> result[i].line == tok.Pos.Line - 1 && tok.Pos.Column <= result[i].col && result[i].col + result[i].length <= tok.Pos.Column + len(tok.Value)
 //@   loop 1 invariant 0 - 1 <= rangeindex && 0 <= searchStart && searchStart <= len(commentText) && commentText == tok.Value && (fresh(tokens) || len(tokens) == 0)
 //@   loop 1 invariant forall i int :: 0 <= i && i < len(tokens) ==> tokens[i].tokenType <= 12
+//@   loop 1 invariant forall i int :: {tokens[i]} 0 <= i && i < len(tokens) ==> tokens[i].tokenType == 5 || tokens[i].tokenType == 12
 //@   loop 1 invariant baseCol == tok.Pos.Column - 1 && baseLine == tok.Pos.Line - 1
 //@   loop 1 invariant forall i int :: {tokens[i]} 0 <= i && i < len(tokens) ==> tokens[i].line == baseLine && baseCol + 1 <= tokens[i].col && tokens[i].col + tokens[i].length <= baseCol + 1 + searchStart
 //@   loop 1 invariant forall i int :: {tokens[i]} 0 <= i && i < len(tokens) ==> tokens[i].length >= 0
@@ -180,9 +192,11 @@ package server
 //@   requires len(content) < 2147483646
 //@   ensures [legend] forall i int :: 0 <= i && i < len(result) ==> result[i].tokenType <= 12
 //@   ensures [C17:emitted_in_order] ordTokS(result)
+//@   ensures [C17:delimited_tokens_not_empty] forall i int :: {result[i]} 0 <= i && i < len(result) && (result[i].tokenType == 7 || result[i].tokenType == 1) ==> result[i].length >= 1
 //@   loop 1 invariant lexer != nil && fresh(lexer) && LexInv(lexer) && Pos16(lexer) && lexer.input == content && (len(tokens) == 0 || fresh(tokens))
 //@   loop 1 invariant forall i int :: 0 <= i && i < len(tokens) ==> tokens[i].tokenType <= 12
 //@   loop 1 invariant [C17:emitted_in_order] forall i int :: {tokens[i]} {seq(tokens)[i]} 0 < i && i < len(tokens) ==> tokens[i - 1].line < tokens[i].line || (tokens[i - 1].line == tokens[i].line && tokens[i - 1].col <= tokens[i].col)
+//@   loop 1 invariant [C17:delimited_tokens_not_empty] forall i int :: {tokens[i]} 0 <= i && i < len(tokens) && (tokens[i].tokenType == 7 || tokens[i].tokenType == 1) ==> tokens[i].length >= 1
 //@   loop 1 invariant [C17:behind_the_lexer] forall i int :: {tokens[i]} 0 <= i && i < len(tokens) ==> tokens[i].line <= lexer.line - 1
 //@   loop 1 invariant [C17:last_before_lexer_column] len(tokens) > 0 && tokens[len(tokens) - 1].line == lexer.line - 1 ==> tokens[len(tokens) - 1].col <= lexer.column - 1 || lexer.pos == len(lexer.input) || lexer.input[lexer.pos] == '\n'
 //@   loop 1 decreases len(content) - lexer.pos
